@@ -45,7 +45,8 @@ def make_case(seed, i, kind=None):
 def prepare(case):
     """source text, Gallina term, id table"""
     ids = G.name_ids(case["prog"], extra=[n for lv in case["ns"] for n in lv])
-    src, term = G.render(case["prog"], ids)
+    src, term, spans = G.render(case["prog"], ids)
+    case["_spans"] = spans
     return src, term, ids
 
 
@@ -181,6 +182,8 @@ def run_real(src, nsnames):
 
     def describe(e):
         import traceback
+        while e.__context__ is not None:        # an exception raised in a finally block hides the first one
+            e = e.__context__
         ln = None
         for fr in traceback.extract_tb(e.__traceback__):
             if fr.filename == '<p>':
@@ -390,17 +393,127 @@ def stmt_exprs(s):
 
 def classify_miss(case, name, line):
     """which known finding (if any) explains that CPython raised NameError for [name] at [line] and
-    pyflyby did not report it.  Predicates are over the generated term only."""
-    prog = case["prog"]
-    if has_class_named(prog, name):
-        return "F10-class"          # own name in body / defaults / read before the class statement / class-level name in a class-body comprehension
+    pyflyby did not report it.  Predicates over the generated term and its rendering (line spans) only."""
+    prog, spans = case["prog"], case["_spans"]
+    classes = []          # (stmt, path)
+    walk(prog, lambda s, p: classes.append((s, p)) if s[0] == "class" else None)
+    inside = [(s, p) for s, p in classes if spans[id(s)][0] < line <= spans[id(s)][1]]
+    # F10-class: the name of a class statement - read in that class's own body / method defaults, before
+    # the class statement (the entry is deleted when the class is visited), or from a function body
+    # that sees the finder's _class_delayed scope
+    for s, p in classes:
+        if s[1] == name:
+            hdr, last = spans[id(s)]
+            if line <= last or in_function_body(prog, spans, line):
+                return "F10-class"
+    # class-level names of a class whose body contains the line
+    for s, p in inside:
+        if name in block_binds(s[5]):
+            if any(k == "def" for k, _ in p) and name in enclosing_function_locals(prog, s):
+                return "F10-classrebind"    # LOAD_NAME ignores the enclosing function's local
+            return "F10-classcomp"          # a nested scope in the class body reads a class-level name
     if has_attr_store_rooted(prog, name):
-        return "F10-attrstore"      # a.b = v with `a` unbound: the base name is only checked when unused-import tracking is on
-    if in_class_somewhere(prog) and name in class_level_names(prog):
-        return "F10-classcomp"      # comprehension / nested scope in a class body reading a class-level name
-    if name in comp_targets(prog):
-        return "F10-firstiter"      # deferred read inside a first iterable sees the comprehension target
+        return "F10-attrstore"
+    if name in comp_targets_at(prog, spans, line):
+        return "F10-firstiter"
     return None
+
+
+def in_function_body(prog, spans, line):
+    found = []
+    walk(prog, lambda s, p: found.append(1) if (s[0] == "def" and spans[id(s)][0] < line <= spans[id(s)][1]) else None)
+    if found:
+        return True
+    # a lambda body on that line is a function body too
+    return bool(lambdas_at(prog, spans, line))
+
+
+def block_binds(body):
+    acc = set()
+    walk(body, lambda s, p: acc.update(stmt_binds(s)) if not p else None)
+    return acc
+
+
+def enclosing_function_locals(prog, cls):
+    """parameters and body-bound names of every def that contains the class statement"""
+    acc = set()
+
+    def f(s, p):
+        if s[0] == "def":
+            inner = []
+            walk(s[5], lambda x, q: inner.append(x))
+            if any(x is cls for x in inner):
+                P = s[3]
+                for q in P["posonly"] + P["args"] + P["kwonly"] + [z for z in (P["vararg"], P["kwarg"]) if z]:
+                    acc.add(q[0])
+                acc.update(block_binds(s[5]))
+    walk(prog, f)
+    return acc
+
+
+def exprs_at(prog, spans, line):
+    """header expressions of the statement whose header (or decorator) is on that line"""
+    out = []
+
+    def f(s, p):
+        hdr = spans[id(s)][0]
+        if s[0] in ("def", "class"):
+            decos = s[2] if s[0] == "def" else s[3]
+            for i, d in enumerate(decos):
+                if hdr - len(decos) + i == line:
+                    out.append(d)
+            if hdr == line:
+                out.extend(x for x in stmt_exprs(s) if not any(x is d for d in decos))
+        elif hdr == line:
+            out.extend(stmt_exprs(s))
+    walk(prog, f)
+    return out
+
+
+def sub_exprs(e, acc):
+    if e is None:
+        return
+    acc.append(e)
+    t = e[0]
+    if t == "op":
+        for x in e[2]:
+            sub_exprs(x, acc)
+    elif t == "lambda":
+        for x in e[2]:
+            sub_exprs(x, acc)
+        sub_exprs(e[3], acc)
+    elif t == "comp":
+        for it, tg, ifs in e[2]:
+            sub_exprs(it, acc)
+            for x in ifs:
+                sub_exprs(x, acc)
+        for x in e[3]:
+            sub_exprs(x, acc)
+
+
+def lambdas_at(prog, spans, line):
+    acc = []
+    for e in exprs_at(prog, spans, line):
+        sub_exprs(e, acc)
+    return [e for e in acc if e[0] == "lambda"]
+
+
+def comp_targets_at(prog, spans, line):
+    acc, out = [], set()
+    for e in exprs_at(prog, spans, line):
+        sub_exprs(e, acc)
+
+    def tn(t):
+        if t[0] == "n":
+            out.add(t[1])
+        elif t[0] == "t":
+            for x in t[1]:
+                tn(x)
+    for e in acc:
+        if e[0] == "comp":
+            for it, tg, ifs in e[2]:
+                tn(tg)
+    return out
 
 
 def class_level_names(prog):
@@ -455,7 +568,7 @@ def stmt_binds(s):
 
 def check_case(ctx, case, src, ids, im, mo):
     """im = implementation result, mo = decoded model result"""
-    rec = {"i": case["i"], "kind": case["kind"], "src": src, "ns": case["ns"], "prog": case["prog"]}
+    rec = {"i": case.get("i", 0), "kind": case["kind"], "src": src, "ns": case["ns"], "prog": case["prog"]}
     nontriv = False
     # 1. correspondence
     if isinstance(im["fm"], dict) or "exc" in im["scan"]:
@@ -528,8 +641,9 @@ def check_case(ctx, case, src, ids, im, mo):
 
 
 KNOWN_WHAT = {
-    "F10-class": "class name read in its own body / defaults, or before a later class statement of that name",
+    "F10-class": "class name read in its own body / defaults, before a later class statement of that name, or through the delayed-class scope",
     "F10-classcomp": "nested scope in a class body reads a class-level name",
+    "F10-classrebind": "class body that rebinds a name of the enclosing function reads it with LOAD_NAME",
     "F10-attrstore": "attribute store through an unbound base name, find_unused_imports off",
     "F10-firstiter": "deferred read inside a first iterable sees the comprehension target",
 }
@@ -550,7 +664,34 @@ def run_cases(ctx, cases):
     ctx.notes["model_evaluations_in_kernel"] = ctx.notes.get("model_evaluations_in_kernel", 0) + len(exprs)
 
 
+def run_witnesses(ctx):
+    """replay the witness of every open known finding on the implementation and on CPython"""
+    cases, meta = [], []
+    for e in ctx.open_findings():
+        w = e.get("witness") or {}
+        for k, pw in enumerate(w.get("progs", [])):
+            cases.append({"kind": "exec", "i": -1 - len(cases), "prog": pw["prog"], "ns": w["ns"]})
+            meta.append((e["id"], pw))
+    if not cases:
+        return
+    prepared = [prepare(c) for c in cases]
+    wcases = [{"kind": "exec", "src": p[0], "ns": c["ns"]} for c, p in zip(cases, prepared)]
+    impl = cm.run_impl("c05", "impl_case", wcases, timeout_case=20, jobs=1)
+    for (fid, pw), c, p, im in zip(meta, cases, prepared, impl):
+        assert p[0] == pw["src"], (p[0], pw["src"])
+        ctx.bump("witness_replayed")
+        raised = set(n for _, n in im["run"]["unbound"])
+        reported = set(x.split(".")[0] for x in im["fm"])
+        if pw["name"] in raised and pw["name"] not in reported:
+            ctx.known_hit(fid, "NameError name not reported (%s); witness %r" % (KNOWN_WHAT.get(fid, fid), pw["src"]))
+        elif pw["name"] not in raised:
+            ctx.disagreement("known-finding witness: CPython did not raise NameError", {"src": p[0], "ns": c["ns"], "prog": c["prog"], "kind": "exec"}, im, fid)
+        else:
+            ctx.bump("witness_no_longer_reproduces:" + fid)
+
+
 def run(ctx):
+    run_witnesses(ctx)
     n = 600 if ctx.quick else 40000
     ctx.coverage["rule"] = (
         "terms of Scope/PySyntax.v from one seeded PRNG, rendered to source: 3/4 'executed' programs (no else/handler/"
